@@ -28,7 +28,7 @@ pub struct Choice {
 }
 
 pub fn strategy() -> BoxedStrategy<Choice> {
-  (0u8..9, prop::collection::vec((0u8..10, 0u8..8, 0u8..8), 1..7), any::<bool>(), 0u8..10)
+  (0u8..RULES.len() as u8, prop::collection::vec((0u8..10, 0u8..8, 0u8..8), 1..7), any::<bool>(), 0u8..10)
     .prop_map(|(rule, stmts, trailing_newline, lead)| Choice {
       rule,
       stmts,
@@ -77,6 +77,13 @@ const RULES: &[&str] = &[
   "id: r\nlanguage: JavaScript\nrule:\n  kind: string\nfix:\n  template: S\n  expandStart: {regex: '^,$'}\n  expandEnd: {regex: '^,$'}\n",
   // deletion of a whole statement
   "id: r\nlanguage: JavaScript\nrule:\n  kind: expression_statement\n  has: {pattern: 'bar($$$)'}\nfix: ''\n",
+  // block scalars with clip chomping: the replacement ends with a line break
+  "id: r\nlanguage: JavaScript\nrule:\n  pattern: foo($A)\nfix: |\n  bar($A)\n",
+  "id: r\nlanguage: JavaScript\nrule:\n  pattern: foo($$$ARGS)\nfix: |\n  qux(\n    $$$ARGS\n  )\n",
+  "id: r\nlanguage: JavaScript\nrule:\n  pattern: let $V = $A\nfix:\n  template: \"var $V = $A\\n\"\n",
+  // keep chomping: two line breaks at the end, and a fix that is only a line break
+  "id: r\nlanguage: JavaScript\nrule:\n  pattern: foo($A)\nfix: |+\n  bar($A)\n\n",
+  "id: r\nlanguage: JavaScript\nrule:\n  kind: number\n  inside: {kind: array}\nfix: \"\\n\"\n",
 ];
 
 pub fn interpret(ch: &Choice, _st: &mut Stats) -> Option<Case> {
@@ -366,7 +373,7 @@ rule:
 pub fn run(cfg: &RunCfg) -> i32 {
   let mut report = Report::new(
     cfg,
-    "case = (one fixable JavaScript rule out of 9 templates: string fix, prefix match trimming the trailing `;`, expandEnd / expandStart / both swallowing commas, transformed variable, multi-line replacement, object form without expansion, statement deletion; a text of 1-6 statements with nested / multi-line calls, arrays, multi-byte identifiers). Reference = (replacementOffsets, replacement) of `sg scan --json=stream`. Compared: the `fixed` snapshot of `sg test -U` (first match), Node::replace_all (outermost matches) and AstGrep::replace (first) through the library, the LSP quick fix of every diagnostic and the fix-all action. (scan -U is C18's subject.) Non-trivial = distinct case whose edit range differs from the matched node's range or whose replacement is multi-line.",
+    "case = (one fixable JavaScript rule out of 14 templates: string fix, block-scalar fixes that end with one or two line breaks, a fix that is only a line break, prefix match trimming the trailing `;`, expandEnd / expandStart / both swallowing commas, transformed variable, multi-line replacement, object form without expansion, statement deletion; a text of 1-6 statements with nested / multi-line calls, arrays, multi-byte identifiers). Reference = (replacementOffsets, replacement) of `sg scan --json=stream`. Compared: the `fixed` snapshot of `sg test -U` (first match), Node::replace_all (outermost matches) and AstGrep::replace (first) through the library, the LSP quick fix of every diagnostic and the fix-all action. (scan -U is C18's subject.) Non-trivial = distinct case whose edit range differs from the matched node's range or whose replacement is multi-line.",
   );
   report.assume("LSP ranges are converted with character columns");
   let known = Known::load(&cfg.prop);
